@@ -716,7 +716,9 @@ Definition unit_eqb (a b : unit) : bool := true.
 (* ---- generators used by the case files (big inputs are described, not spelled out) --------- *)
 Definition upd (l : list Z) (k v : Z) : list Z := take k l ++ v :: drop (k + 1) l.
 (* pat n a b = [a; a+b; a+2b; ...] mod 256, n elements *)
-Definition pat (n a b : Z) : list Z := map (fun i => (a + Z.of_nat i * b) mod 256) (seq 0 (Z.to_nat n)).
+Fixpoint pat_go (n : nat) (x b : Z) : list Z :=
+  match n with O => [] | S n' => x :: pat_go n' ((x + b) mod 256) b end.
+Definition pat (n a b : Z) : list Z := pat_go (Z.to_nat n) (a mod 256) b.
 
 (* ---- correspondence cases ------------------------------------------------------------- *)
 (* CParse: arbitrary bytes through every entry point.  tlsok = "no error from outside cfg was
